@@ -329,6 +329,15 @@ def chk_unary(ctx, p):
     ctx.count("laws.checked")
     if n <= 6 and not (all(P in c.coveredby() for c in ch) and all(P in q.children() for q in cv[:: max(1, len(cv) // 6)])):
         report("unary", [p], "children / coveredby are not dual")
+    for al in ("cyclic_shift_right", "cyclic_shift_left", "decomposition", "maximal_interval", "sum_decomposable", "skew_decomposable",
+               "shrink_by_one", "flip_horizontal", "flip_vertical", "flip_diagonal"):
+        getattr(P, al)()
+        ctx.count("aliases.called")
+    list(P.all_monotone_intervals(True))
+    ctx.ev()
+    if [P(i) for i in range(n)] != list(p) or len(P) != n or bool(P) is not (n > 0) or P.apply(list(range(n))) != tuple(p) \
+            or P.permute("abcdefghijklmnop"[:n]) != tuple("abcdefghijklmnop"[v] for v in p):
+        report("unary", [p], "__call__ / len / bool / apply disagree with the one-line notation")
     inv = P.inverse()
     if inv.inverse() != P or P.compose(inv) != Perm.identity(n) or inv * P != Perm.identity(n):
         report("unary", [p], "inverse laws fail")
